@@ -24,7 +24,7 @@ class C04(Prop):
 
     def valid(self, case):
         i = case["input"]
-        return bool(i.get("xpath")) and i.get("mode") in ("convert", "wrap", "json") and isinstance(i.get("tree"), (dict, list)) \
+        return isinstance(i.get("xpath"), str) and i.get("mode") in ("convert", "wrap", "json") and isinstance(i.get("tree"), (dict, list)) \
             and i.get("kind") in (0, 1, 2)
 
     def generate(self, rng, tier):
@@ -48,6 +48,8 @@ class C04(Prop):
                 tag = "soup"
             if rng.random() < 0.1:
                 xp = "?" + xp
+            if rng.random() < 0.01:
+                xp, tag = rng.choice(["", "?", " ", "/", "[", "//"]), "degenerate"
             for kind in (0, 1, 2):
                 out.append({"stream": "lookup", "tag": "%s:%s" % (tag, root), "input": {"tree": t, "mode": mode, "xpath": xp, "kind": kind}})
         return out
